@@ -1608,10 +1608,16 @@ class Interp(object):
         if isinstance(base, Obj):
             if attr in base.attrs:
                 return base.attrs[attr]
+            if base.cls.module is None and base.cls.name == 'relativedelta':
+                raise Unmodelled('relativedelta.%s' % attr)         # only .years and .months are modelled
             if attr == '__class__':
                 return base.cls
             bm = self.get_method(base, attr)
             if bm:
+                fn_ = bm.func if isinstance(bm, Bound) else bm
+                if isinstance(fn_, Func) and isinstance(fn_.node, ast.FunctionDef) and \
+                        any(src(d_) in ('property', 'functools.cached_property', 'cached_property') for d_ in fn_.node.decorator_list):
+                    return self.call(bm, [])        # reading a property runs its getter
                 return bm
             ca = self.model.class_attr(base.cls.module, base.cls.node, attr)
             if ca:
